@@ -134,6 +134,12 @@ def forRange {α : Type} (n : Int) (f : Int → Except PyExc (Option α)) : Exce
 /-- `str.isnumeric()` for one character, restricted to ASCII digits (the only numeric characters of the documents in scope) -/
 def isNumeric (c : Char) : Bool := c.isDigit
 
+/-- `l.split(c)` for a one-character separator: the pieces between the separators, empty pieces included (`"".split(c) == [""]`) -/
+def splitChar (l : List Char) (c : Char) : List (List Char) :=
+  l.foldr (fun x acc => if x = c then [] :: acc else match acc with | [] => [[x]] | h :: t => (x :: h) :: t) [[]]
+
+#guard splitChar "a\tb\t\tc".toList '\t' == ["a".toList, "b".toList, [], "c".toList] && splitChar [] '\t' == [[]] && splitChar "\t".toList '\t' == [[], []]
+
 /-- `l.find(pat, start)`: the search begins at `start` (clamped like a slice bound) -/
 def findAt (l pat : List Char) (start : Int) : Int :=
   if start > l.length then -1      -- beyond the end nothing is found, not even the empty pattern
